@@ -21,6 +21,8 @@ seeds = sorted(glob.glob(os.path.join(V, "seeded", "C*-*")),
                key=lambda s: (os.path.basename(s).split("-")[0], int(os.path.basename(s).split("-")[1])))
 if args:
     seeds = [s for s in seeds if os.path.basename(s) in args]
+# (a change that a later repair of /repo made harmless is kept for the record only)
+seeds = [s for s in seeds if not json.load(open(os.path.join(s, "meta.json"))).get("obsolete")]
 rows = {}
 lock = threading.Lock()
 
